@@ -752,6 +752,37 @@ def run_case(case, R):
         mon.end_prev = np.array(m.x, dtype=float, copy=True)
         if ci > 0:
             R.observe('call_boundaries')
+        # ---- boundary conditions changed through the public setter between two solve() calls
+        # (added after seeded change C04-a: conditions resolved once at setup were not refreshed)
+        if ci < len(case['calls']) - 1:
+            rbc = core.case_rng(case['seed'], PROPERTY, case['idx'], 100 + ci)
+            if rbc.random() < 0.5:
+                from kawin.diffusion.DiffusionParameters import BoundaryConditions as BC
+                for k, e in enumerate(els):
+                    new = {}
+                    for side, j in (('L', 0), ('R', -1)):
+                        kind, val = mon.spec[k][side]
+                        if kind == 'flux':
+                            if val == 0.0:
+                                free = 1.0 - float(np.sum(m.x[:, j]))
+                                amt = float(rbc.choice([0.0, 0.03, 0.06])) * min(0.12, 0.5 * free)   # into the mesh
+                                if case['model'] == 'homog':
+                                    amt = min(amt, 0.5 * case['maxChange'] * steps)
+                                Jin = amt * dz / ttot
+                                new[side] = ('flux', float(Jin if side == 'L' else -Jin))
+                            else:
+                                new[side] = ('flux', float(val * float(rbc.choice([0.0, 0.5, 1.0, -0.25]))))
+                        elif rbc.random() < 0.4:
+                            new[side] = ('flux', 0.0)        # fixed-composition side becomes a closed one
+                            if mon.ref_fixed is not None:
+                                mon.ref_fixed.pop((k, side), None)
+                        else:
+                            new[side] = (kind, val)
+                    lt = BC.COMPOSITION_BC if new['L'][0] == 'comp' else BC.FLUX_BC
+                    rt = BC.COMPOSITION_BC if new['R'][0] == 'comp' else BC.FLUX_BC
+                    m.setBC(lt, new['L'][1], rt, new['R'][1], element=e)
+                    mon.spec[k] = new
+                R.observe('bc_changed_between_calls')
     # ---- bookkeeping
     if case['record'] and getattr(m, '_recordedTime', None) is not None and mon.steps > 0:
         extra = int(len(m._recordedTime)) - (mon.steps + 1)
